@@ -23,6 +23,7 @@ EXPLANATION = (
     "processing order (every neighbour final before it is read), seed (a node reaches itself; an edge table starts empty) and edge orientation agree with the query they answer, and the per-node queries of stDiGraph use descendants / ancestors of the condensation united with the node's own SCC; (R5) the greedy peeling subtracts, on every edge of each peeled path of a private working copy, exactly the value it publishes as that path's weight, "
     "(R6) the min-cost-flow network of the maximum edge antichain: demand = caller's weight (0 if missing) / 1 for input edges and 0 for synthetic edges; cost 1 exactly on edges leaving the source.  "
     " (R6, extended) the demand of the antichain network is selected by `weight_function is not None`; selecting by truth value (empty dict treated as absent) is a violation. "
+    " (R7) numerics of the antichain / min-cost-flow substrate: saturated cut edges are collected by `demand > 0` (not >= 1), the supply exceeds the sum of the demands and the arcs are uncapacitated (no constant 2**32), ignored edges are deduplicated before multiplicities are decremented. "
     "and the bottleneck DP takes min(predecessor value, edge value), updates value and predecessor together and reports the value of the path it reconstructs.  NOT decided: that the answers equal a direct graph search, "
     "antichain maximality, peeling arithmetic."
 )
